@@ -26,8 +26,8 @@ ASSUMPTIONS = [
 ]
 FLOORS = {"quick": {"evaluations": 1500, "followups_checked": 1000, "reconnect_failures": 300,
                     "timeouts": 150},
-          "thorough": {"evaluations": 30000, "followups_checked": 20000,
-                       "reconnect_failures": 6000, "timeouts": 1000}}
+          "thorough": {"evaluations": 40000, "followups_checked": 30000,
+                       "reconnect_failures": 30000, "timeouts": 5000}}
 EXHAUSTIVE = {"quick": False, "thorough": False}
 
 BRINGUP = ["onboard", "mode", "onboard", "params"]
@@ -59,7 +59,8 @@ def run_shard(spec, acc):
                     if cell % spec["n"] != spec["shard"]:
                         continue
                     if thorough:
-                        fus = [shape] + followers
+                        fus = [shape] + [f for f in all_shapes if f.name != shape.name and
+                                         f.name != "uiHeartbeat.hbmode"]
                         js = [0, 1, 2, 3]
                     else:
                         fus = [shape, rng.choice(followers)]
